@@ -98,7 +98,9 @@ Record state := mkState {
   ev_suspend : bool;
   files : list Z;                       (* open file numbers *)
   stick_on : bool;
-  def_seg : Z                           (* DEF SEG (all_memory.segment): no command of this model touches it *)
+  def_seg : Z;                          (* DEF SEG (all_memory.segment): no command of this model touches it *)
+  math_raise : bool                     (* values.error_handler._do_raise: Overflow / Division by zero stop the
+                                           program (set by ON ERROR GOTO n) instead of message + machine infinity *)
 }.
 
 #[export] Instance eta_state : Settable _ := settable! mkState
@@ -106,7 +108,7 @@ Record state := mkState {
     sc_vars; sc_mem; sc_current; ar_dims; ar_bufs; ar_mem; ar_current; ar_base; ar_base_by_dim;
     ss_strs; ss_current; foreign; deftype; functions;
     gosub_stack; for_stack; while_stack; on_error; err_handle; err_resume; err_num; err_pos;
-    stop_pos; data_pos; run_mode; tron; seed; ev_enabled; ev_gosub; ev_stopped; ev_suspend; files; stick_on; def_seg >.
+    stop_pos; data_pos; run_mode; tron; seed; ev_enabled; ev_gosub; ev_stopped; ev_suspend; files; stick_on; def_seg; math_raise >.
 
 Definition stack_start (s : state) : Z := m_total s - m_stack s - 2.
 Definition var_start (s : state) : Z := m_code_start s + m_prog_size s.
@@ -662,6 +664,12 @@ Definition prim_call (cls t : string) (args : list arg) (e : env) (s : state) : 
     else if seq t "_clear_stacks" then ASub "Interpreter" "_clear_stacks"
     else if seq t "_basic_events.reset" then
       ADo (Done (s <| ev_enabled := [] |> <| ev_gosub := [] |> <| ev_stopped := [] |> <| ev_suspend := false |>))
+    else if seq t "_values.error_handler.suspend" then
+      (* FloatErrorHandler.suspend(do_raise) (fix D23e) *)
+      match arg_val e args 0 with
+      | Some (VBool b) => ADo (Done (s <| math_raise := b |>))
+      | _ => unsup cls t
+      end
     else if seq t "_program_code.seek" then ADo (Done s)
     else if seq t "set_pointer" then
       match arg_val e args 0 with
@@ -1038,7 +1046,7 @@ Definition init_state (total stack code_start prog_size : Z) : state :=
           [] [] 0 [] [] [] 0 None false
           [] (total - stack - 2) [] (repeat 33 26) []
           [] [] [] None false false 0 0 None 0 false false 5228370
-          [] [] [] false [] false 5037.
+          [] [] [] false [] false 5037 false.
 
 (* ------------------------------------------------------------------------------------------------ *)
 (* observation: canonical encoding for the correspondence harness *)
@@ -1087,7 +1095,7 @@ Definition enc_state (names : list bytes) (s : state) : list Z :=
       enc_opt (on_error s); enc_bool (err_handle s); enc_bool (err_resume s); err_num s; err_pos s;
       enc_opt (stop_pos s); data_pos s; enc_bool (run_mode s); enc_bool (tron s); seed s;
       zlen (ev_enabled s); zlen (ev_gosub s); zlen (ev_stopped s); enc_bool (ev_suspend s);
-      enc_bool (stick_on s); def_seg s]
+      enc_bool (stick_on s); def_seg s; enc_bool (math_raise s)]
   ++ enc_bytes (files s)
   ++ List.concat (map (enc_scalar s) names)
   ++ List.concat (map (enc_array s) names).
